@@ -612,7 +612,8 @@ ResetEventuallyServed   == resetReq.on ~> ~resetReq.on
 SenderEventuallyUnblocked == blocked.on ~> ~blocked.on
 
 EmitHist == PrintT("@@" \o ToJson(hist'))
-EmitWalk == (step' = MaxOps) => PrintT("@@" \o ToJson(hist'))      \* complete walks only (simulation)
+\* simulation: complete walks only, one in 16 of the candidate last steps (keeps the output small)
+EmitWalk == (step' = MaxOps /\ RandomElement(1..16) = 1) => PrintT("@@" \o ToJson(hist'))
 \* prints the behaviour that leads to a pending list with a hole (used with MCTxPool_gap.cfg)
 NoGapWitness == PendingContiguous_(pool) \/ (PrintT("@@" \o ToJson(hist)) /\ FALSE)
 =============================================================================
